@@ -347,7 +347,7 @@ NAME_OVERRIDES = {
     ('mergeWith', 'listMerger'): [text('null'), text('$1 + $2')],
     ('mergeWith', 'itemMerger'): [text('null'), text('$1')],
     ('zipLongest', 'kwargs'): [],
-    ('assert', 'condition'): [text('true'), text('$ != null')],
+    ('assert', 'condition'): [text('false'), text('true'), text('$ != null')],
     ('dict', 'items'): [var((('a', 1), ('b', 2))), var(())],
     ('replace', 'replacements'): [var(yutils.FrozenDict({'a': 'x', 'b': 'y'}))],
     ('set', 'replacements'): [var(yutils.FrozenDict({'z': 9}))],
